@@ -125,7 +125,7 @@ def run_property(pid, tier, seed):
     if not ded:
         checker_defect = True
         status_lines.append("CHECKER-ERROR property=%s generated zero deductive obligations" % pid)
-    if len(ded) < prop.min_obligations:
+    if len(ded) < prop.min_obligations and not any(o.status == UNDECIDED for o in ded):
         checker_defect = True
         status_lines.append("CHECKER-ERROR property=%s only %d deductive obligations (< registered minimum %d)" % (pid, len(ded), prop.min_obligations))
 
